@@ -42,6 +42,11 @@ Definition bminimum (x y : b64) : b64 :=
 (* np.clip(x, a_min, a_max) = minimum(maximum(x, a_min), a_max) *)
 Definition bclip (x lo hi : b64) : b64 := bminimum (bmaximum x lo) hi.
 
+(* np.trunc as a float -> float operation (round toward zero to an integer; NaN and infinities unchanged) *)
+Definition btrunc (x : b64) : b64 := Bnearbyint mode_ZR x.
+(* np.nextafter(x, 0.0) for a positive x: the next double toward zero *)
+Definition bpred (x : b64) : b64 := Bpred x.
+
 (* np.trunc followed by a C cast to an integer: the integer part; None where the cast is undefined *)
 Definition btruncZ (x : b64) : option Z :=
   match x with
